@@ -468,6 +468,9 @@ fn build_copy_for_enum(
     let mut wcb = WhereClauseBuilder::new(&item.generics);
     let use_bounds = e.push_bounds_to(&mut wcb);
     for variant in variants {
+        let use_bounds = variant
+            .hattrs
+            .push_bounds_to_raw(use_bounds, false, kind, &mut wcb);
         for field in &variant.fields {
             field.push_bounds_to(use_bounds, kind, &mut wcb);
         }
